@@ -35,6 +35,7 @@ func (m *Machine) lockOp(fr *frame, mu value, mode string, acquire bool) {
 	}
 	ev := lockEvent{Mutex: id, Mode: mode, Acq: acquire, Fn: fn, Held: append([]string(nil), ls.order...)}
 	ls.events = append(ls.events, ev)
+	defer m.lockHook(id, acquire, ev.Held, fn)
 	if acquire {
 		if _, dup := ls.held[id]; dup {
 			m.ghost["lockerr"] = append(m.ghost["lockerr"], fmt.Sprintf("re-acquire of held mutex %s in %s", id, fn))
